@@ -23,6 +23,7 @@
  * bundle with CERT_STORE_DN_BUFFER|CERT_ALLOW_BUNDLE_PARTIAL_PARSE), presented certificates the way the
  * handshake does (psX509ParseCert per certificate, linked leaf first), CRLs the way apps/ssl/client.c does
  * (psX509ParseCRL, psCRL_Update, psX509AuthenticateCRL against the issuer). */
+#define _GNU_SOURCE
 #include "vf.h"
 #include "matrixsslApi.h"
 #include "certgen.h"
@@ -41,8 +42,15 @@ enum {
     OP_SIG_ALG_OUTER, OP_SIG_ALG_WRONG, OP_SIG_HASH_SWAP, OP_SHA1_EQLEN, OP_SHA1_DIFFLEN, OP_MD5,
     OP_ISSUER_DN, OP_EXPIRED, OP_NOT_YET, OP_UNK_CRIT, OP_REVOKED,
     OP_NOT_CA, OP_BC_ABSENT, OP_PATHLEN, OP_KU_NOCERTSIGN, OP_KU_EMPTY_OLD, OP_WEAK_RSA512, OP_V1,
+    /* validity-window grid (notBefore class x notAfter class), labelled */
+    OP_NOT_YET_INDEF, OP_NOT_YET_2D_INDEF, OP_NOT_YET_FAR, OP_NOT_YET_2D, OP_EXPIRED_2D, OP_VALIDITY_INVERTED,
+    /* RSA PKCS#1 v1.5 signature values that are the issuer's PRIVATE-key operation on a malformed encoded message */
+    OP_EM_NONFF, OP_EM_RANDOM_PS, OP_EM_BT02, OP_EM_NO_SEP, OP_EM_EARLY_SEP, OP_EM_TRAILING, OP_EM_DI_PARAMS,
+    /* signature values computed from the issuer's PUBLIC key alone (e = 3: a perfect cube below n whose cube has the wanted prefix / suffix) */
+    OP_FORGE_NONFF, OP_FORGE_RANDOM_PS, OP_FORGE_PAD8_TRAILING, OP_FORGE_PAD1_TRAILING, OP_FORGE_PAD0_TRAILING, OP_FORGE_DI_PARAMS,
     /* benign */
     OP_UNK_NONCRIT, OP_PATHLEN_TIGHT, OP_BOGUS_CRL, OP_CRL_OTHER, OP_GENTIME, OP_PSS, OP_SHA384, OP_SHA512, OP_NO_AKI_SKI,
+    OP_INDEF, OP_INDEF_FRESH, OP_FAR, OP_FRESH,
     /* recorded only */
     OP_KU_ABSENT, OP_AKI_MISMATCH, OP_EKU_CRIT_OTHER, OP_EXPIRED_ANCHOR, OP_CRL_UNAUTH, OP_LINGER, OP_ISSUER_DN_TYPE, OP_WEAK_LEAF512, OP_SIG_ENVELOPE,
     OP_N
@@ -60,6 +68,17 @@ static const struct { const char *name; int cls, target; } OPS[OP_N] = {
     [OP_NOT_CA] = { "issuer-not-ca", CL_BAD, T_ISSUER }, [OP_BC_ABSENT] = { "bc-absent", CL_BAD, T_ISSUER }, [OP_PATHLEN] = { "pathlen-exceeded", CL_BAD, T_ISSUER },
     [OP_KU_NOCERTSIGN] = { "ku-no-certsign", CL_BAD, T_ISSUER }, [OP_KU_EMPTY_OLD] = { "ku-empty-pre2002-issuer", CL_BAD, T_ISSUER },
     [OP_WEAK_RSA512] = { "weak-rsa-512", CL_BAD, T_ISSUER }, [OP_V1] = { "v1-issuer", CL_BAD, T_INTER },
+    [OP_NOT_YET_INDEF] = { "not-yet-valid-no-expiry-9999", CL_BAD, T_SUBJ }, [OP_NOT_YET_2D_INDEF] = { "not-yet-valid-2d-no-expiry-9999", CL_BAD, T_SUBJ },
+    [OP_NOT_YET_FAR] = { "not-yet-valid-expires-after-2050", CL_BAD, T_SUBJ }, [OP_NOT_YET_2D] = { "not-yet-valid-2d", CL_BAD, T_SUBJ },
+    [OP_EXPIRED_2D] = { "expired-2d", CL_BAD, T_SUBJ }, [OP_VALIDITY_INVERTED] = { "validity-inverted", CL_BAD, T_SUBJ },
+    [OP_EM_NONFF] = { "rsa-em-non-ff-padding-octet", CL_BAD, T_SUBJ }, [OP_EM_RANDOM_PS] = { "rsa-em-random-padding", CL_BAD, T_SUBJ }, [OP_EM_BT02] = { "rsa-em-block-type-02", CL_BAD, T_SUBJ },
+    [OP_EM_NO_SEP] = { "rsa-em-no-separator", CL_BAD, T_SUBJ }, [OP_EM_EARLY_SEP] = { "rsa-em-garbage-after-separator", CL_BAD, T_SUBJ },
+    [OP_EM_TRAILING] = { "rsa-em-short-padding-trailing-garbage", CL_BAD, T_SUBJ }, [OP_EM_DI_PARAMS] = { "rsa-em-garbage-in-digestinfo-params", CL_BAD, T_SUBJ },
+    [OP_FORGE_NONFF] = { "forged-e3-garbage-padding-then-00", CL_BAD, T_SUBJ }, [OP_FORGE_RANDOM_PS] = { "forged-e3-random-padding", CL_BAD, T_SUBJ },
+    [OP_FORGE_PAD8_TRAILING] = { "forged-e3-pad8-trailing-garbage", CL_BAD, T_SUBJ }, [OP_FORGE_PAD1_TRAILING] = { "forged-e3-pad1-trailing-garbage", CL_BAD, T_SUBJ },
+    [OP_FORGE_PAD0_TRAILING] = { "forged-e3-pad0-trailing-garbage", CL_BAD, T_SUBJ }, [OP_FORGE_DI_PARAMS] = { "forged-e3-garbage-in-digestinfo-params", CL_BAD, T_SUBJ },
+    [OP_INDEF] = { "no-expiry-9999", CL_BENIGN, T_SUBJ }, [OP_INDEF_FRESH] = { "no-expiry-9999-just-issued", CL_BENIGN, T_SUBJ },
+    [OP_FAR] = { "expires-after-2050", CL_BENIGN, T_SUBJ }, [OP_FRESH] = { "just-issued", CL_BENIGN, T_SUBJ },
     [OP_UNK_NONCRIT] = { "unknown-noncritical-ext", CL_BENIGN, T_SUBJ }, [OP_PATHLEN_TIGHT] = { "pathlen-tight", CL_BENIGN, T_ISSUER },
     [OP_BOGUS_CRL] = { "bogus-crl", CL_BENIGN, T_SUBJ }, [OP_CRL_OTHER] = { "crl-other-serial", CL_BENIGN, T_SUBJ }, [OP_GENTIME] = { "generalized-time", CL_BENIGN, T_SUBJ },
     [OP_PSS] = { "rsa-pss", CL_BENIGN, T_SUBJ }, [OP_SHA384] = { "sha384", CL_BENIGN, T_SUBJ }, [OP_SHA512] = { "sha512", CL_BENIGN, T_SUBJ }, [OP_NO_AKI_SKI] = { "no-aki-ski", CL_BENIGN, T_SUBJ },
@@ -84,9 +103,29 @@ typedef struct {
     int api;                    /* 0 matrixValidateCerts, 1 matrixValidateCertsExt(opts 0), 2 Ext + VCERTS_FLAG_REVALIDATE_DATES */
 } cdesc;
 
-static const char KTC[] = "RPE3";                     /* key-type letters: RSA2048, P256, Ed25519, P384 */
-static int kt_of(char c) { return c == 'R' ? CG_K_RSA2048 : c == 'P' ? CG_K_P256 : c == 'E' ? CG_K_ED25519 : c == '3' ? CG_K_P384 : -1; }
-static char kt_ch(int t) { return t == CG_K_RSA2048 ? 'R' : t == CG_K_P256 ? 'P' : t == CG_K_ED25519 ? 'E' : '3'; }
+static const char KTC[] = "RPE3";                     /* key-type letters: RSA2048, P256, Ed25519, P384 (+ 'C': RSA2048 with public exponent 3) */
+/* K_RSA_E3: pseudo key type of this harness - an RSA-2048 key whose public exponent is 3 (accepted by the library's default configuration and by OpenSSL).
+ * The keys live in their own pool; their cg_key.type is CG_K_RSA2048, so certgen treats them as ordinary RSA keys. */
+#define K_RSA_E3 CG_K_NTYPES
+static cg_key *e3_pool[CG_POOL_MAX];
+static cg_key *key_get(int kt, int idx)
+{
+    if (kt != K_RSA_E3) return cg_key_get(kt, idx);
+    if (idx < 0 || idx >= CG_POOL_MAX) exit(2);
+    if (!e3_pool[idx]) {
+        EVP_PKEY_CTX *c = EVP_PKEY_CTX_new_id(EVP_PKEY_RSA, NULL); EVP_PKEY *pk = NULL; BIGNUM *e = BN_new(); BN_set_word(e, 3);
+        if (!c || EVP_PKEY_keygen_init(c) <= 0 || EVP_PKEY_CTX_set_rsa_keygen_bits(c, 2048) <= 0 || EVP_PKEY_CTX_set1_rsa_keygen_pubexp(c, e) <= 0 || EVP_PKEY_keygen(c, &pk) <= 0) {
+            fprintf(stderr, "c03: RSA e=3 key generation failed\n"); ERR_print_errors_fp(stderr); exit(2); }
+        BN_free(e); EVP_PKEY_CTX_free(c);
+        cg_key *k = calloc(1, sizeof *k); k->type = CG_K_RSA2048; k->idx = idx; k->pk = pk; k->spkilen = i2d_PUBKEY(pk, &k->spki);
+        if (k->spkilen <= 0) exit(2);
+        SHA1(k->spki, k->spkilen, k->skid); e3_pool[idx] = k;
+    }
+    return e3_pool[idx];
+}
+static int kt_rsa(int t) { return t == CG_K_RSA2048 || t == K_RSA_E3; }
+static int kt_of(char c) { return c == 'R' ? CG_K_RSA2048 : c == 'P' ? CG_K_P256 : c == 'E' ? CG_K_ED25519 : c == '3' ? CG_K_P384 : c == 'C' ? K_RSA_E3 : -1; }
+static char kt_ch(int t) { return t == CG_K_RSA2048 ? 'R' : t == CG_K_P256 ? 'P' : t == CG_K_ED25519 ? 'E' : t == K_RSA_E3 ? 'C' : '3'; }
 static void desc_str(const cdesc *d, char *o, size_t n)
 {
     char kp[MAXL + 1]; for (int i = 0; i < d->L; i++) kp[i] = kt_ch(d->kt[i]); kp[d->L] = 0;
@@ -105,7 +144,7 @@ static int desc_parse(const char *s, cdesc *d)
 static const char *keyclass(const cdesc *d)
 {
     int same = 1; for (int i = 1; i < d->L; i++) if (d->kt[i] != d->kt[0]) same = 0;
-    return !same ? "mixed-keys" : d->kt[0] == CG_K_RSA2048 ? "rsa" : d->kt[0] == CG_K_P256 ? "p256" : d->kt[0] == CG_K_ED25519 ? "ed25519" : "p384";
+    return !same ? "mixed-keys" : d->kt[0] == CG_K_RSA2048 ? "rsa" : d->kt[0] == CG_K_P256 ? "p256" : d->kt[0] == CG_K_ED25519 ? "ed25519" : d->kt[0] == K_RSA_E3 ? "rsa-e3" : "p384";
 }
 static int crl_capable(int kt) { return kt != CG_K_ED25519; }    /* psX509ParseCRL has no Ed25519 support: such CRLs cannot be loaded at all */
 static int op_applicable(const cdesc *d, int op, int p)
@@ -123,9 +162,11 @@ static int op_applicable(const cdesc *d, int op, int p)
     case OP_PATHLEN: return L - p - 2 >= 1;
     case OP_PATHLEN_TIGHT: return 1;
     case OP_SIG_HASH_SWAP: case OP_SHA1_EQLEN: case OP_SHA1_DIFFLEN: case OP_SHA384: case OP_SHA512: return ikt != CG_K_ED25519;
-    case OP_MD5: case OP_PSS: return ikt == CG_K_RSA2048;
-    case OP_WEAK_RSA512: return d->kt[p] == CG_K_RSA2048;
-    case OP_WEAK_LEAF512: return d->kt[p] == CG_K_RSA2048;
+    case OP_MD5: case OP_PSS: return kt_rsa(ikt);
+    case OP_WEAK_RSA512: return kt_rsa(d->kt[p]);
+    case OP_WEAK_LEAF512: return kt_rsa(d->kt[p]);
+    case OP_EM_NONFF: case OP_EM_RANDOM_PS: case OP_EM_BT02: case OP_EM_NO_SEP: case OP_EM_EARLY_SEP: case OP_EM_TRAILING: case OP_EM_DI_PARAMS: return kt_rsa(ikt);
+    case OP_FORGE_NONFF: case OP_FORGE_RANDOM_PS: case OP_FORGE_PAD8_TRAILING: case OP_FORGE_PAD1_TRAILING: case OP_FORGE_PAD0_TRAILING: case OP_FORGE_DI_PARAMS: return ikt == K_RSA_E3;
     case OP_REVOKED: case OP_BOGUS_CRL: case OP_CRL_OTHER: case OP_CRL_UNAUTH: return crl_capable(ikt);
     case OP_SIG_COPY_ISSUER: return p >= 2;
     case OP_SIG_ENVELOPE: return cg_is_ec(ikt);
@@ -139,6 +180,8 @@ typedef struct {
     cg_spec spec; cg_cert cert; int made;
     int revoked_auth;                     /* listed in a CRL that is genuinely signed by its issuer AND authenticated by the application */
     char label[24];
+    int craft;                            /* OP_EM_* / OP_FORGE_*: the signature value is crafted at mint time (craft_sig) */
+    unsigned char crafted[512], em[512];  /* the crafted signature value and the block it decodes to under the issuer's public key */
 } node;
 static node N[NNODE];
 typedef struct { unsigned char *der; int len; int auth_with; } crlrec;   /* auth_with: node whose certificate the app authenticates the CRL against, -1 = app skips that step */
@@ -148,6 +191,7 @@ static int unsupported;                    /* the case uses something outside "s
 static long NOW;
 
 /* ground truth, derived from the final spec that was handed to the generator */
+#define T_INDEFINITE 253402300799L   /* 9999-12-31 23:59:59 UTC */
 #define LINGER 86400L   /* PS_X509_TIME_LINGER: the documented one-day tolerance of the date check (crypto/keyformat/x509.h) is granted to the library */
 static int gt_in_validity(const node *n) { return n->spec.not_before <= NOW + LINGER && NOW <= n->spec.not_after + LINGER; }
 static int gt_is_ca(const node *n) { return n->spec.version == 2 && n->spec.bc && n->spec.bc_ca; }
@@ -238,6 +282,21 @@ static void apply_op(const cdesc *d, int op, int p)
     case OP_EXPIRED: case OP_EXPIRED_ANCHOR: s->not_before = NOW - 400L * 86400; s->not_after = NOW - 10L * 86400; break;
     case OP_LINGER: s->not_before = NOW - 400L * 86400; s->not_after = NOW - 3600; break;
     case OP_NOT_YET: s->not_before = NOW + 10L * 86400; s->not_after = NOW + 400L * 86400; break;
+    /* validity-window grid.  notBefore: long ago (default, now-30d) / a minute ago / in 2 days (just beyond the one-day tolerance) / in 10 days;
+     * notAfter: 10 days ago / 2 days ago / in a year (default) / beyond 2049 (GeneralizedTime) / 99991231235959Z, RFC 5280 4.1.2.5 "no well-defined expiration date" */
+    case OP_INDEF: s->not_after = T_INDEFINITE; s->gen_time = 1; break;
+    case OP_INDEF_FRESH: s->not_before = NOW - 60; s->not_after = T_INDEFINITE; s->gen_time = 1; break;
+    case OP_NOT_YET_INDEF: s->not_before = NOW + 10L * 86400; s->not_after = T_INDEFINITE; s->gen_time = 1; break;
+    case OP_NOT_YET_2D_INDEF: s->not_before = NOW + 2L * 86400; s->not_after = T_INDEFINITE; s->gen_time = 1; break;
+    case OP_FAR: s->not_after = NOW + 40L * 365 * 86400; s->gen_time = 1; break;
+    case OP_NOT_YET_FAR: s->not_before = NOW + 10L * 86400; s->not_after = NOW + 40L * 365 * 86400; s->gen_time = 1; break;
+    case OP_NOT_YET_2D: s->not_before = NOW + 2L * 86400; break;
+    case OP_EXPIRED_2D: s->not_after = NOW - 2L * 86400; break;
+    case OP_VALIDITY_INVERTED: s->not_before = NOW + 10L * 86400; s->not_after = NOW - 10L * 86400; break;
+    case OP_FRESH: s->not_before = NOW - 60; break;
+    case OP_EM_NONFF: case OP_EM_RANDOM_PS: case OP_EM_BT02: case OP_EM_NO_SEP: case OP_EM_EARLY_SEP: case OP_EM_TRAILING: case OP_EM_DI_PARAMS:
+    case OP_FORGE_NONFF: case OP_FORGE_RANDOM_PS: case OP_FORGE_PAD8_TRAILING: case OP_FORGE_PAD1_TRAILING: case OP_FORGE_PAD0_TRAILING: case OP_FORGE_DI_PARAMS:
+        s->sigalg = CG_RSA_SHA256; s->sigmode = CG_SM_OVERRIDE; N[p].craft = op; break;      /* value computed at mint time */
     case OP_UNK_CRIT: s->unk = 2; break;
     case OP_UNK_NONCRIT: s->unk = 1; break;
     case OP_NOT_CA: s->bc = 1; s->bc_ca = 0; s->bc_pathlen = -1; break;
@@ -277,6 +336,119 @@ static void apply_crl_op(const cdesc *d, int op, int p)
 }
 static int is_crl_op(int op) { return op == OP_REVOKED || op == OP_CRL_UNAUTH || op == OP_BOGUS_CRL || op == OP_CRL_OTHER; }
 
+
+/* ------------------------------------------------------------------ crafted RSA signature values --- */
+/* Two families of signature values that are NOT RSASSA-PKCS1-v1_5 signatures of the TBS by the issuer (RFC 8017 8.2.2: the verifier's EM' must EQUAL the decoded block):
+ *   OP_EM_*    : the issuer's private-key operation applied to a malformed encoded message (what a faulty or malicious signer would emit);
+ *   OP_FORGE_* : no private key at all - for an issuer with e = 3 a perfect cube s^3 < n is found whose big-endian image starts with a chosen prefix and ends with a
+ *                chosen suffix (high part: integer cube root; low part: 2-adic cube root, the suffix must be odd), Bleichenbacher 2006 and Kuehn et al. 2008 variants.
+ * In both families the block the value decodes to under the issuer's PUBLIC key contains the correct DigestInfo||SHA-256(TBS), so only a verifier that checks the
+ * whole padding refuses them.  The harness recomputes value^e mod n with libcrypto and checks the intended shape (else: inconclusive, generator fault). */
+static const unsigned char DI256[19] = { 0x30, 0x31, 0x30, 0x0d, 0x06, 0x09, 0x60, 0x86, 0x48, 0x01, 0x65, 0x03, 0x04, 0x02, 0x01, 0x05, 0x00, 0x04, 0x20 };
+static unsigned char rnz(void) { return (unsigned char) (1 + vf_below(&R, 255)); }                 /* random non-zero octet */
+static int is_forge(int op) { return op >= OP_FORGE_NONFF && op <= OP_FORGE_DI_PARAMS; }
+/* fills em[0..k): EM ops completely; FORGE ops the prefix em[0..*pl), the suffix em[k-*sl..k) and the filler between them; *nz = the middle must not contain a 00 octet */
+static int em_shape(int op, const unsigned char *H, int k, unsigned char *em, int *pl, int *sl, int *nz)
+{
+    unsigned char T[51]; memcpy(T, DI256, 19); memcpy(T + 19, H, 32);
+    int i, q; *pl = k; *sl = 0; *nz = 0;
+    if (k < 128) return -1;
+    memset(em, 0xff, k); em[0] = 0; em[1] = 1;
+    switch (op) {
+    case OP_EM_NONFF: em[k - 52] = 0; memcpy(em + k - 51, T, 51); em[2 + vf_below(&R, k - 54)] = (unsigned char) (1 + vf_below(&R, 254)); break;
+    case OP_EM_RANDOM_PS: case OP_EM_BT02: for (i = 2; i < k - 52; i++) em[i] = rnz(); em[3] = 0x5a; em[k - 52] = 0; memcpy(em + k - 51, T, 51); if (op == OP_EM_BT02) em[1] = 2; break;
+    case OP_EM_NO_SEP: memcpy(em + k - 51, T, 51); break;
+    case OP_EM_EARLY_SEP: em[10] = 0; for (i = 11; i < k - 52; i++) em[i] = rnz(); em[k - 52] = 0; memcpy(em + k - 51, T, 51); break;
+    case OP_EM_TRAILING: em[10] = 0; memcpy(em + 11, T, 51); for (i = 62; i < k; i++) em[i] = (unsigned char) vf_below(&R, 256); break;
+    case OP_EM_DI_PARAMS: case OP_FORGE_DI_PARAMS: {
+        /* 00 01 FFx8 00 | 30 82 L1 | 30 82 L2 | 06 09 sha256 | 04 82 L3 <garbage> | 04 20 H : a DigestInfo whose AlgorithmIdentifier parameters hold the free octets */
+        int L1 = k - 15, L2 = k - 53, L3 = k - 68; unsigned char *c = em + 10;
+        *c++ = 0; *c++ = 0x30; *c++ = 0x82; *c++ = (unsigned char) (L1 >> 8); *c++ = (unsigned char) L1; *c++ = 0x30; *c++ = 0x82; *c++ = (unsigned char) (L2 >> 8); *c++ = (unsigned char) L2;
+        memcpy(c, DI256 + 4, 11); c += 11; *c++ = 0x04; *c++ = 0x82; *c++ = (unsigned char) (L3 >> 8); *c++ = (unsigned char) L3;
+        for (i = 0; i < L3; i++) c[i] = op == OP_EM_DI_PARAMS ? (unsigned char) vf_below(&R, 256) : 0x80;
+        c += L3; *c++ = 0x04; *c++ = 0x20; memcpy(c, H, 32);
+        if (op == OP_FORGE_DI_PARAMS) { *pl = 34; *sl = 34; }
+        break; }
+    case OP_FORGE_NONFF: *pl = 6; *sl = 52; *nz = 1; em[k - 52] = 0; memcpy(em + k - 51, T, 51); break;                          /* 00 01 FF FF FF FF <whatever the cube gives, no 00> 00 T */
+    case OP_FORGE_RANDOM_PS: *pl = 22; *sl = 52; *nz = 1; for (i = 2; i < 22; i++) em[i] = rnz(); em[2] = 0x17; memset(em + 22, 0x80, k - 74); em[k - 52] = 0; memcpy(em + k - 51, T, 51); break;
+    case OP_FORGE_PAD8_TRAILING: case OP_FORGE_PAD1_TRAILING: case OP_FORGE_PAD0_TRAILING:
+        q = op == OP_FORGE_PAD8_TRAILING ? 8 : op == OP_FORGE_PAD1_TRAILING ? 1 : 0;
+        em[2 + q] = 0; memcpy(em + 3 + q, T, 51); *pl = 3 + q + 51; memset(em + *pl, 0x80, k - *pl); break;                      /* 00 01 FFxq 00 T <whatever the cube gives> */
+    default: return -1;
+    }
+    return 0;
+}
+static void bn_icbrt(BIGNUM *x, const BIGNUM *t, BN_CTX *bc)       /* floor of the real cube root */
+{
+    BIGNUM *c = BN_new(), *y = BN_new();
+    BN_zero(x);
+    for (int b = BN_num_bits(t) / 3 + 1; b >= 0; b--) { BN_copy(y, x); BN_set_bit(y, b); BN_sqr(c, y, bc); BN_mul(c, c, y, bc); if (BN_cmp(c, t) <= 0) BN_copy(x, y); }
+    BN_free(c); BN_free(y);
+}
+static void bn_cbrt2(BIGNUM *x, const BIGNUM *a, int m, BN_CTX *bc)  /* the x < 2^m with x^3 = a mod 2^m, a odd */
+{
+    BIGNUM *c = BN_new();
+    BN_one(x);
+    for (int i = 1; i < m; i++) { BN_sqr(c, x, bc); BN_mask_bits(c, m); BN_mul(c, c, x, bc); if (BN_is_bit_set(c, i) != BN_is_bit_set(a, i)) BN_set_bit(x, i); }   /* d(x^3) = 3x^2 is odd: bit i of x flips bit i of x^3 */
+    BN_free(c);
+}
+static int rsa_raw(EVP_PKEY *pk, int priv, const unsigned char *in, int k, unsigned char *out)
+{
+    EVP_PKEY_CTX *c = EVP_PKEY_CTX_new(pk, NULL); size_t n = (size_t) k; int ok = 0;
+    if (c && priv && EVP_PKEY_sign_init(c) > 0 && EVP_PKEY_CTX_set_rsa_padding(c, RSA_NO_PADDING) > 0 && EVP_PKEY_sign(c, out, &n, in, (size_t) k) > 0 && n == (size_t) k) ok = 1;
+    if (c && !priv && EVP_PKEY_verify_recover_init(c) > 0 && EVP_PKEY_CTX_set_rsa_padding(c, RSA_NO_PADDING) > 0 && EVP_PKEY_verify_recover(c, out, &n, in, (size_t) k) > 0 && n == (size_t) k) ok = 1;
+    EVP_PKEY_CTX_free(c); ERR_clear_error();
+    return ok ? 0 : -1;
+}
+/* 1 = crafted, 0 = this TBS does not admit the forgery (try another serial number), -1 = failure */
+static int forge_cube(const BIGNUM *n, int k, const unsigned char *shape, int pl, int sl, int nz, unsigned char *sig, BN_CTX *bc)
+{
+    if (sl && !(shape[k - 1] & 1)) return 0;
+    BIGNUM *t = BN_bin2bn(shape, k, NULL), *r = BN_new(), *s = BN_new(), *lo = BN_new(), *suf = BN_new(), *step = BN_new(), *cube = BN_new(); int ok = 0; unsigned char em[512];
+    bn_icbrt(r, t, bc);
+    BN_copy(s, r);
+    if (sl) {
+        int m = sl * 8; BN_bin2bn(shape + k - sl, sl, suf); bn_cbrt2(lo, suf, m, bc);
+        BN_rshift(s, r, m); BN_lshift(s, s, m); BN_add(s, s, lo); BN_one(step); BN_lshift(step, step, m);
+        if (BN_cmp(s, r) > 0) BN_sub(s, s, step);
+    } else { BN_one(step); BN_add(s, s, step); }              /* smallest cube not below prefix||80 80 .. : still far inside the prefix */
+    for (int attempt = 0; attempt < 4096 && !ok && !BN_is_negative(s); attempt++, BN_sub(s, s, step)) {
+        BN_sqr(cube, s, bc); BN_mul(cube, cube, s, bc);
+        if (BN_cmp(cube, n) >= 0 || BN_bn2binpad(cube, em, k) != k) continue;
+        if (memcmp(em, shape, pl) || (sl && memcmp(em + k - sl, shape + k - sl, sl))) continue;
+        ok = 1;
+        if (nz) for (int i = pl; i < k - sl; i++) if (!em[i]) ok = 0;
+        if (ok) BN_bn2binpad(s, sig, k);
+    }
+    BN_free(t); BN_free(r); BN_free(s); BN_free(lo); BN_free(suf); BN_free(step); BN_free(cube);
+    return ok;
+}
+static int craft_sig(int p)
+{
+    node *nd = &N[p]; cg_spec *s = &nd->spec; int op = nd->craft, k, pl, sl, nz, done = 0; unsigned char H[32], shape[512];
+    BIGNUM *n = NULL; BN_CTX *bc = BN_CTX_new();
+    if (!cg_is_rsa(s->signer->type) || !EVP_PKEY_get_bn_param(s->signer->pk, "n", &n)) { BN_CTX_free(bc); return -1; }
+    k = BN_num_bytes(n);
+    if (is_forge(op)) { BIGNUM *e = NULL; int e3 = EVP_PKEY_get_bn_param(s->signer->pk, "e", &e) && BN_is_word(e, 3); BN_free(e); if (!e3) k = 9999; }   /* the cube forgery needs e = 3 */
+    if (k > 512) { BN_free(n); BN_CTX_free(bc); return -1; }
+    for (int round = 0; round < 200 && !done; round++) {
+        for (int i = 0; i < 8; i++) s->serial[i] = (unsigned char) vf_below(&R, 256);
+        s->serial[0] = (s->serial[0] & 0x7f) | 0x40; s->seriallen = 8;
+        cg_buf tbs = { 0 }; cg_build_tbs(&tbs, s); SHA256(tbs.p, tbs.n, H); cg_buf_free(&tbs);
+        if (em_shape(op, H, k, shape, &pl, &sl, &nz) < 0) break;
+        if (!is_forge(op)) { if (rsa_raw(s->signer->pk, 1, shape, k, nd->crafted) < 0) break; done = 1; }
+        else { int f = forge_cube(n, k, shape, pl, sl, nz, nd->crafted, bc); if (f < 0) break; done = f; vf_stat("forge_rounds", 1); }
+    }
+    BN_free(n); BN_CTX_free(bc);
+    if (!done) return -1;
+    /* self-check: what does the value decode to under the signer's public key ? */
+    if (rsa_raw(s->signer->pk, 0, nd->crafted, k, nd->em) < 0 || memcmp(nd->em, shape, pl) || (sl && memcmp(nd->em + k - sl, shape + k - sl, sl)) || !memmem(nd->em, k, H, 32)) {
+        vf_incon("GENERATOR: crafted signature value (%s) does not decode to the intended block", OPS[op].name); return -1; }
+    vf_stat(is_forge(op) ? "crafted_sig:forged-from-public-key-e3" : "crafted_sig:private-op-on-malformed-em", 1);
+    s->sig_override = nd->crafted; s->sig_override_len = k;
+    return k;
+}
+
 static int build(const cdesc *d)
 {
     char cn[64], org[32];
@@ -284,7 +456,7 @@ static int build(const cdesc *d)
     snprintf(org, sizeof org, "Verif %04x", (unsigned) vf_below(&R, 0x10000));
     int L = d->L;
     for (int i = 0; i < L; i++) {
-        cg_key *key = cg_key_get(d->kt[i], i);
+        cg_key *key = key_get(d->kt[i], i);
         if (i == 0) { rname(cn, sizeof cn, "Root CA"); cg_spec_ca(&N[0].spec, org, cn, key, NULL, NULL, NOW, d->apl); }
         else if (i < L - 1) { snprintf(cn, sizeof cn, "Int%d CA %04x", i, (unsigned) vf_below(&R, 0x10000)); cg_spec_ca(&N[i].spec, org, cn, key, &N[i - 1].spec, N[i - 1].spec.key, NOW, -1); }
         else { snprintf(cn, sizeof cn, "h%05x.example.test", (unsigned) vf_below(&R, 0x100000)); cg_spec_leaf(&N[i].spec, org, cn, key, &N[i - 1].spec, N[i - 1].spec.key, NOW); }
@@ -301,7 +473,8 @@ static int build(const cdesc *d)
     for (int i = 0; i < NNODE; i++) {
         if (i >= L && i < MAXL) continue;
         cg_spec *s = &N[i].spec;
-        if (s->sigmode == CG_SM_OVERRIDE) {
+        if (s->sigmode == CG_SM_OVERRIDE && N[i].craft) { if (craft_sig(i) < 0) return -1; }
+        else if (s->sigmode == CG_SM_OVERRIDE) {
             int from = src_anchor;
             for (int k = 0; k < 2; k++) if (d->pos[k] == i && d->op[k] == OP_SIG_COPY_ISSUER) from = i - 1;
             if (from >= i) return -1;
@@ -351,7 +524,7 @@ static void chain_text(const cdesc *d, char *o, size_t n)
     size_t k = 0; o[0] = 0;
     k += snprintf(o + k, n - k, "chain=");
     for (int i = 0; i < d->L && k < n; i++) {
-        k += snprintf(o + k, n - k, "%s%s(%s", i ? ">" : "", N[i].label, cg_ktname[N[i].spec.key->type]);
+        k += snprintf(o + k, n - k, "%s%s(%s", i ? ">" : "", N[i].label, d->kt[i] == K_RSA_E3 && N[i].spec.key->type == CG_K_RSA2048 ? "RSA2048-e3" : cg_ktname[N[i].spec.key->type]);
         if (N[i].spec.bc && N[i].spec.bc_ca && N[i].spec.bc_pathlen >= 0) k += snprintf(o + k, n - k, ",pathLen=%d", N[i].spec.bc_pathlen);
         k += snprintf(o + k, n - k, ")");
     }
@@ -469,7 +642,8 @@ static void run_case(const cdesc *d)
     int single_bad = OPS[d->op[0]].cls == CL_BAD && d->op[1] == OP_NONE && d->anc == A_RIGHT && d->ord == 0;
     int ossl_knows = d->op[0] == OP_SIG_CORRUPT || d->op[0] == OP_SIG_WRONG_KEY || d->op[0] == OP_SIG_COPY_ANCHOR || d->op[0] == OP_SIG_COPY_ANCHOR_SAMEDN || d->op[0] == OP_SIG_COPY_ISSUER ||
                      d->op[0] == OP_SIG_ALG_OUTER || d->op[0] == OP_SIG_ALG_WRONG || d->op[0] == OP_SIG_HASH_SWAP || d->op[0] == OP_ISSUER_DN || d->op[0] == OP_EXPIRED || d->op[0] == OP_NOT_YET ||
-                     d->op[0] == OP_UNK_CRIT || d->op[0] == OP_NOT_CA || d->op[0] == OP_PATHLEN || d->op[0] == OP_KU_NOCERTSIGN;
+                     d->op[0] == OP_UNK_CRIT || d->op[0] == OP_NOT_CA || d->op[0] == OP_PATHLEN || d->op[0] == OP_KU_NOCERTSIGN ||
+                     (d->op[0] >= OP_NOT_YET_INDEF && d->op[0] <= OP_FORGE_DI_PARAMS);      /* validity grid, malformed-EM and forged signature values */
     if (canonical || (single_bad && ossl_knows)) {
         const cg_cert *un[MAXL + 1], *an[4]; int nu = 0;
         for (int i = 1; i < npres; i++) un[nu++] = &N[presented[i]].cert;
@@ -506,6 +680,8 @@ static void run_case(const cdesc *d)
     vf_distinct("%s|%d|%s@%d|%s@%d|%s|%d|%d|%d", kp, d->L, OPS[d->op[0]].name, d->pos[0], OPS[d->op[1]].name, d->pos[1], ANC[d->anc], d->apl, d->ord, d->root_presented);
     if (vf_case) fprintf(stderr, "CASE %s\n  %s\n  ref=%d success=%d %s canonical=%d openssl=%d(%d)\n", ds, ct, ref, success, detail, canonical, ossl, oerr);
     if (vf_case) for (int i = 0; i < NNODE; i++) if (N[i].made && N[i].spec.sigmode == CG_SM_FLIP) { char hx[1200]; vf_hex(hx, N[i].cert.der + N[i].cert.sig_off, N[i].cert.sig_len > 560 ? 560 : N[i].cert.sig_len); fprintf(stderr, "  %s: signature bit %d flipped (of %d bits); signature now %s\n", N[i].label, N[i].spec.flip_bit % (N[i].cert.sig_len * 8), N[i].cert.sig_len * 8, hx); }
+    if (vf_case) for (int i = 0; i < NNODE; i++) if (N[i].made && N[i].craft && N[i].spec.sig_override == N[i].crafted) { char hx[1100]; vf_hex(hx, N[i].em, N[i].spec.sig_override_len > 512 ? 512 : N[i].spec.sig_override_len);
+        fprintf(stderr, "  %s: signature value crafted (%s); under the issuer's public key it decodes to %s\n", N[i].label, OPS[N[i].craft].name, hx); }
     if (vf_case && vf_flag("--dump")) for (int i = 0; i < NNODE; i++) if (N[i].made) { char *pem = cg_pem("CERTIFICATE", N[i].cert.der, N[i].cert.len); fprintf(stderr, "# %s\n%s", N[i].label, pem); free(pem); }
 
     if (chain) psX509FreeCert(chain);
@@ -533,6 +709,9 @@ static void keyplan(cdesc *d, int plan)   /* 0..2 uniform R/P/E, 3..5 rotations 
 }
 static cdesc base(int L, int plan) { cdesc d; memset(&d, 0, sizeof d); d.L = L; d.apl = -1; d.api = 1; keyplan(&d, plan); return d; }
 
+/* operators that are enumerated alone (sections B, I, J) but not in the pair / anchor-set products of the thorough tier: one representative of each new family stays in */
+static int solo_only(int op) { return (op >= OP_NOT_YET_INDEF && op <= OP_FORGE_DI_PARAMS && op != OP_NOT_YET_INDEF && op != OP_EM_NONFF) || op == OP_INDEF_FRESH || op == OP_FAR || op == OP_FRESH; }
+static cdesc base_kp(const char *kp) { cdesc d; memset(&d, 0, sizeof d); d.L = (int) strlen(kp); d.apl = -1; d.api = 1; for (int i = 0; i < d.L; i++) d.kt[i] = kt_of(kp[i]); return d; }
 static void build_workload(void)
 {
     long serial = 0;
@@ -566,15 +745,39 @@ static void build_workload(void)
         static const int ops[] = { OP_SIG_CORRUPT, OP_EXPIRED, OP_NOT_CA, OP_SIG_COPY_ANCHOR, OP_ISSUER_DN, OP_UNK_CRIT, OP_PATHLEN, OP_KU_NOCERTSIGN };
         for (int o = 0; o < 8; o++) for (int p = 0; p < L; p++) { cdesc e = base(L, plan); e.ord = ord; e.op[0] = ops[o]; e.pos[0] = p; add_case(&e); }
     }
+    /* I. issuers with RSA public exponent 3 (root or intermediate): honest chains must validate; every signature operator - the forgeries computed from the
+     *    public key alone included - on each certificate issued by such a key must be refused */
+    {
+        static const char *kps[] = { "CR", "CP", "CRR", "CCP", "RCR", "PCE", "CRPR", "RCCR", "PRCP" }; long ser = 0;
+        static const int sops[] = { OP_SIG_CORRUPT, OP_SIG_WRONG_KEY, OP_SIG_COPY_ANCHOR, OP_SIG_COPY_ANCHOR_SAMEDN, OP_SIG_EMPTY, OP_SIG_HASH_SWAP, OP_SHA384, OP_PSS, OP_NOT_YET_INDEF };
+        for (int q = 0; q < 9; q++) {
+            cdesc g = base_kp(kps[q]);
+            for (int rp = 0; rp < 2; rp++) { cdesc d = g; d.root_presented = rp; d.api = (int) (ser++ % 3); add_case(&d); if (g.L >= 3 && !rp) { d.anc = A_INT; add_case(&d); d.anc = A_MANY_RIGHT_LAST; add_case(&d); } }
+            for (int p = 1; p < g.L; p++) {
+                if (g.kt[p - 1] != K_RSA_E3) continue;
+                for (int op = OP_EM_NONFF; op <= OP_FORGE_DI_PARAMS; op++) for (int rp = 0; rp < 2; rp++) { cdesc d = g; d.op[0] = op; d.pos[0] = p; d.root_presented = rp; d.api = (int) (ser++ % 3); add_case(&d); }
+                for (int o = 0; o < 9; o++) { cdesc d = g; d.op[0] = sops[o]; d.pos[0] = p; d.api = (int) (ser++ % 3); add_case(&d); }
+            }
+        }
+    }
     if (!vf_thorough) return;
+    /* J. e = 3 issuers: crafted signature values x anchor sets x presentation orders, and below anchors with a pathLen */
+    {
+        static const char *kps[] = { "CR", "CRR", "CCC", "RCR", "ECP", "CRPR", "RCCR", "PRCP", "CRRRR", "RRRCR", "RCRCR" };
+        for (int q = 0; q < 11; q++) { cdesc g = base_kp(kps[q]);
+            for (int p = 1; p < g.L; p++) { if (g.kt[p - 1] != K_RSA_E3) continue;
+                for (int op = OP_EM_NONFF; op <= OP_FORGE_DI_PARAMS; op++) for (int a = 0; a < A_N; a++) { cdesc d = g; d.op[0] = op; d.pos[0] = p; d.anc = a; d.ord = (op + a) % 5; d.root_presented = (op + a + p) & 1; d.api = (op + a) % 3; d.apl = a == A_RIGHT ? g.L - 2 : -1; add_case(&d); } } }
+    }
     /* F. pairs of operators */
     for (int L = 2; L <= MAXL; L++) for (int o1 = 1; o1 < OP_N; o1++) for (int o2 = o1; o2 < OP_N; o2++) for (int p1 = 0; p1 < L; p1++) for (int p2 = 0; p2 < L; p2++) {
         if (o1 == o2 && p2 <= p1) continue;
+        if (solo_only(o1) || solo_only(o2)) continue;
         if (p1 == p2 && OPS[o1].cls != CL_BENIGN && OPS[o2].cls != CL_BENIGN && o1 != o2 && L > 3) continue;   /* two defects on the same certificate: only for short chains */
         for (int v = 0; v < 2; v++) { cdesc d = base(L, (o1 * 7 + o2 * 3 + p1 + p2 + L + v * 2) % 6); d.op[0] = o1; d.pos[0] = p1; d.op[1] = o2; d.pos[1] = p2; d.api = (o1 + o2 + v) % 3; add_case(&d); }
     }
     /* G. operators x anchor sets x permutations */
     for (int L = 2; L <= MAXL; L++) for (int op = 1; op < OP_N; op++) for (int p = 0; p < L; p++) for (int a = 1; a < A_N; a++) {
+        if (solo_only(op)) continue;
         cdesc d = base(L, (op + p + a) % 6); d.op[0] = op; d.pos[0] = p; d.anc = a; d.ord = (op + a) % 5; d.root_presented = (op + p) & 1; add_case(&d);
     }
     /* H. all key-type assignments for short chains, P-384 included, with the most telling operators */
@@ -605,7 +808,7 @@ int main(int argc, char **argv)
     NOW = mx_now;
     if (vf_case) {
         cdesc d; if (desc_parse(vf_case, &d) < 0) { vf_incon("unparsable case spec: %s", vf_case); vf_flush(); return 2; }
-        for (int i = 0; i < d.L; i++) cg_key_get(d.kt[i], i);
+        for (int i = 0; i < d.L; i++) key_get(d.kt[i], i);
         replay_one(&d, "c03");
         vf_flush(); matrixSslClose(); return 0;
     }
@@ -613,8 +816,8 @@ int main(int argc, char **argv)
     long *mine = malloc((ncases + 1) * sizeof *mine), nm = 0;
     for (long i = 0; i < ncases; i++) if (vf_mine(i)) mine[nm++] = i;
     /* generate every key this shard needs once, before forking (children inherit the pool) */
-    for (long j = 0; j < nm; j++) { const cdesc *d = &CASES[mine[j]]; for (int i = 0; i < d->L; i++) cg_key_get(d->kt[i], i);
-        for (int k = 0; k < 2; k++) { if (d->op[k] == OP_SIG_WRONG_KEY || d->op[k] == OP_BOGUS_CRL) for (int i = 0; i < d->L; i++) cg_key_get(d->kt[i], 5); if (d->op[k] == OP_WEAK_RSA512 || d->op[k] == OP_WEAK_LEAF512) cg_key_get(CG_K_RSA512, 0); } }
+    for (long j = 0; j < nm; j++) { const cdesc *d = &CASES[mine[j]]; for (int i = 0; i < d->L; i++) key_get(d->kt[i], i);
+        for (int k = 0; k < 2; k++) { if (d->op[k] == OP_SIG_WRONG_KEY || d->op[k] == OP_BOGUS_CRL) for (int i = 0; i < d->L; i++) cg_key_get(d->kt[i] == K_RSA_E3 ? CG_K_RSA2048 : d->kt[i], 5); if (d->op[k] == OP_WEAK_RSA512 || d->op[k] == OP_WEAK_LEAF512) cg_key_get(CG_K_RSA512, 0); } }
     cg_key_get(CG_K_P256, 7); cg_key_get(CG_K_ED25519, 7); cg_key_get(CG_K_P256, 8);
     if (vf_shard == 0) { vf_stat("workload_cases_total", ncases); }
     const long B = 24;
